@@ -9,13 +9,69 @@ library's output alone.
 
 Tolerance (DESIGN 1.4: derived, not tuned): the closed forms evaluate integer-coefficient polynomials in cos(theta)
 whose terms reach 1.1e5 (l = 10, m = 0) before cancelling to O(1e2); with the prefactor ~5e-3, ~20 operations and
-eps = 2.2e-16 the absolute error bound is ~2.4e-12 (observed worst 1.0e-13).  e^{i m phi} with |m| <= 20 adds
-m*|phi|*eps/2 <= 7e-15 relative in every implementation.  => atol 5e-12 + rtol 1e-10 per component.  Any change of
+eps = 2.2e-16 the absolute error bound is ~2.4e-12 (observed worst 1.0e-13).  e^{i m phi} with |m| <= 60, |phi| <= 2 pi
+adds m*|phi|*eps/2 <= 4e-14 relative in every implementation.  => atol 5e-12 + rtol 1e-10 per component.  Any change of
 an integer coefficient, a sign, an exponent or the order of the entries moves a component by >= 1e-4 at generic
 angles, i.e. eight orders above the tolerance.
 
-Preconditions (the domain in the property text): theta in [0, pi] (polar), phi in (-pi, pi] (azimuth), scalar
-floats (the tables use cmath.exp; callers in static/boo.py pass numpy float64 scalars, so both kinds are generated).
+Preconditions: theta in [0, pi] (polar); phi (azimuth) in (-pi, pi] as the property text says, in [0, 2 pi] as
+docs/utils.md VI says, and -pi itself (numpy.arctan2(-0.0, x < 0), what static/boo.py really passes): Y_lm is
+2 pi-periodic in phi and the code adds 2 pi to negative values only, so the union [-pi, 2 pi] is the accepted
+domain.  Scalar arguments (the tables use cmath.exp): python float, numpy float64 (static/boo.py passes
+theta[j], phi[j]), the two mixed, and whole-number angles as python int / numpy int64.  float32 scalars and 0-d
+arrays are NOT generated: the result precision for float32 is undefined by the docs, and `phi += 2 pi` in
+SphHarm_above modifies a 0-d array argument in place (nobody passes one).
+
+CLAUSES (statement + quantifier, one row per clause; counts = classes in evidence/C08.json, quick tier, seed 5)
+  clause / axis                               facet(s) and deciding assertion                      populated classes
+  ------------------------------------------  ---------------------------------------------------  ------------------------------
+  l = 1..10, every m: table == Y_lm           tables (120 components / point), grid41, history:    generic-theta 1.9k, pole 0.9k,
+                                              |got - A| <= 5e-12 + 1e-10|A| per component, also B  equator 0.15k per 3000
+  ... identically in theta in [0, pi]         same; theta uniform, whole degrees, 13 specials,     pole-exact 656, pole-offset
+                                              and (round 3) log-uniform offsets 1e-14..1e-2 from   (0,1e-8] 179, (1e-8,1e-4] 68;
+                                              0, pi/2, pi (numpy.isclose / rounding windows)       equator-offset 141 / 65;
+                                                                                                   theta-north 1.8k, theta-south 1.2k
+  ... identically in phi in (-pi, pi]         same; phi uniform, whole degrees, specials; round 3: phi<0 0.9k, phi=0 0.45k,
+      (+ documented [0, 2 pi], + -pi)         upper half (pi, 2 pi], -pi, -0.0, offsets from       phi-in-(pi,2pi] 514, phi=+-pi 0.3k,
+                                              k pi/2                                               phi=-pi-exact 10, phi-axis-offset
+                                                                                                   (0,1e-8] 194, (1e-8,1e-4] 81
+  returned in the order m = -l..l             implied by the component-wise comparison with A      (every case)
+                                              (index k <-> m = k - l) + shape (2l+1,)
+  l > 10 delegated == same definition         above (l = 11..20 all ten per point), dispatch,      above: 900 points x 10 degrees;
+                                              grid41, history; round 3: above_high (three degrees  above_high: l-20s 73, l-30s 53,
+                                              from 21..60, any order) - was l <= 20 only           l-40s 75, l-50s 76; l-odd 144,
+                                                                                                   l-even 136; order asc/desc/mixed
+  sum_m |Y_lm|^2 = (2l+1)/4 pi                _identities on every library vector, all facets      (every case)
+  Y_l,-m = (-1)^m conj Y_lm                   _identities (all m < 0), all facets                  (every case); parity: l-odd 1.6k,
+                                                                                                   l-even 1.4k in dispatch
+  dispatcher returns table of degree l        dispatch: sph_harm_l(l) == A and == SphHarm{l} /     l=01..l=20 each >= 100;
+                                              SphHarm_above(l) (1e-13); grid41 l = 1..10;          ltype-np.int64 871 (round 3)
+                                              history (dispatcher and direct calls interleaved)
+  "for every ... " as a function (no state)   round 3, history: 3..8 calls per case, same / nearly repeat-exact 520, repeat-near
+                                              the same / other angles, degrees in any order,       (0,1e-8] 345, (1e-8,1e-6] 194,
+                                              returned arrays overwritten by the caller in         repeat-after-caller-overwrote-
+                                              between; each result vs A for its own arguments      result 174, delegated-degree-
+                                                                                                   after-a-larger-one 100 per 700
+  results stay what they were at return       round 3 (EXTENSION_3 class 3, seeded C08-F): every   same-degree-other-angles-while-
+  (a returned array is the caller's)          returned array is kept with a copy taken at return;  earlier-result-alive ~600 per 700
+                                              tables / above / above_high (all degrees of the      histories; dispatch: 3 arrays of
+                                              point), dispatch (dispatcher + table at phi -+ pi +  one degree alive per case
+                                              table at phi), history (all steps) re-compare ALL
+                                              of them bit for bit at the end of the case
+  how the arguments are spelled               round 3: rep (float, np.float64, mixed, int,         rep-float 1.1k, rep-np.float64
+  (EXTENSION_2 class 3, class 1)              np.int64), call (positional as boo.py / keywords     1.1k, mixed 0.6k, rep-int 120,
+                                              theta=, phi=, l= as docs and tests)                  rep-np.int64 130, call-kw 875
+  Weak before round 3: phi never above pi and never -pi; theta offsets from the poles only 1e-8 / 1e-3, none from the
+  equator; l <= 20 only; arguments always positional and of one float type; degree always a python int; every call
+  evaluated once with fresh arguments (no repeated / neighbouring / interleaved calls).
+
+EXTENSION_2 classes: 1 no option-like parameter exists (tools/flag_audit.py: 0 rows) -> call styles instead; 2 phi in
+(pi, 2 pi], phi = -pi, -0.0; 3 int / np.int64 angles, mixed scalar types, np.int64 degree; 4 above_high l = 21..60;
+6 history (+ EXTENSION_3 class 3: results kept alive and re-compared at the end of every case); 9 l parity, theta north / south, sign of phi as tags; 11 1e-160 angles are in the specials, every tolerance
+has an absolute floor.  Not applicable: 5 (no integer quotient), 7 (no frames), 8 (no neighbour lists), 10 (no cell).
+EXTENSION_3: 3 applied (above); 1 no size axis (scalar arguments, one vector of fixed length 2l+1 out); 2 a float-valued
+degree (6.0, 12.0) is out of domain: documented `l (int)`, and the unchanged SphHarm_above raises TypeError for it;
+4 no batches.
 """
 from __future__ import annotations
 
@@ -24,34 +80,47 @@ from hypothesis import strategies as st
 from scipy.special import sph_harm_y
 
 from ..gen import fl
-from ..harness import Facet, Violation
+from ..harness import Facet, Violation, exception_from_cut
 from ..ref import ylm as R
 from ..util import arr, require
 
 from PyMatterSim.utils import spherical_harmonics as SH
 
-RULE = ("points (theta, phi) in [0,pi] x (-pi,pi] (uniform floats, whole degrees, poles, equator, phi = 0, +-pi/2, pi, "
-        "values next to the poles) x degrees: closed-form tables l = 1..10, delegated branch l = 11..20, dispatcher "
-        "l = 1..20; every order m = -l..l compared with an independent recurrence implementation (and scipy / mpmath). "
+RULE = ("points (theta, phi) in [0,pi] x [-pi,2pi] (uniform floats, whole degrees, poles, equator, phi = 0, +-pi/2, +-pi, "
+        "2pi, offsets 1e-14..1e-2 from those; python / numpy floats and whole numbers, positional and keyword calls) x "
+        "degrees: closed-form tables l = 1..10, delegated branch l = 11..20 and 21..60, dispatcher l = 1..20 (python "
+        "and numpy integer l), call histories of 3..8 calls in one process; every order m = -l..l compared with an "
+        "independent recurrence implementation (and scipy / mpmath). "
         "non-trivial = at least half of the compared (l, m) components have |Y_lm| > 1e-3 (so the comparison is "
         "not dominated by the absolute tolerance); the number of such components is in extra.components_above_1e-3")
-ASSUMPTIONS = ["theta in [0, pi] is the polar angle, phi in (-pi, pi] the azimuth (as the code and the property text use "
-               "them; the docstrings have the two names swapped)",
-               "scalar arguments (python float or numpy float64), as passed by static/boo.py",
+ASSUMPTIONS = ["theta in [0, pi] is the polar angle, phi the azimuth (as the code and the property text use them; the "
+               "docstrings have the two names swapped); azimuth domain = (-pi, pi] of the property text + [0, 2 pi] of "
+               "docs/utils.md + -pi (numpy.arctan2(-0.0, negative)), Y_lm being 2 pi-periodic in phi",
+               "scalar arguments: python float or numpy float64 (static/boo.py), the two mixed, whole-number angles as "
+               "python int / numpy.int64; degree as python int or numpy.int64; positional or keyword (theta=, phi=, l=) "
+               "calls.  No float32, no 0-d arrays",
+               "every call returns a fresh result that is correct for its own arguments whatever was evaluated before "
+               "and whatever the caller did to arrays returned earlier (facet history); an array handed out earlier is "
+               "never modified by a later call (all facets keep their results alive and re-compare them at the end)",
                "reference A: float64 three-term recurrence, cross-checked in-facet against scipy.special.sph_harm_y "
                "and mpmath.spherharm (30 digits); agreement among the three is itself asserted (2e-13)",
                "tolerance atol 5e-12 + rtol 1e-10 per component, derived from coefficient size in the l = 10 table"]
 
 RTOL, ATOL = 1e-10, 5e-12
 LMAX_ABOVE = 20
+LMAX_HIGH = 60      # facet above_high: degrees 21..60 of the delegated branch
 TABLES = {l: getattr(SH, f"SphHarm{l}", None) for l in range(1, 11)}
 
 _PI = float(np.pi)
+_2PI = 2.0 * _PI
 _THETA_SPECIAL = [0.0, _PI, _PI / 2, float(np.nextafter(_PI / 2, 0)), float(np.nextafter(_PI / 2, 4)), 1e-8,
                   _PI - 1e-8, 1e-3, _PI - 1e-3, 1e-160, float(np.nextafter(_PI, 0)), _PI / 3, _PI / 4]
 _PHI_SPECIAL = [0.0, _PI, _PI / 2, -_PI / 2, float(np.nextafter(-_PI, 0)), 1e-9, -1e-9, _PI / 6, -3.0, 3.0,
-                float(np.nextafter(_PI, 0)), -1e-160]
-
+                float(np.nextafter(_PI, 0)), -1e-160,
+                # round 3: what numpy.arctan2 returns for a bond in the x-z plane with y = -0.0 (x < 0: -pi, x > 0: -0.0)
+                -_PI, -_PI, -0.0,
+                # round 3: the documented azimuth range is [0, 2 pi] (docs/utils.md VI); (pi, 2 pi] was never drawn
+                _2PI, 1.5 * _PI, float(np.nextafter(_PI, 4)), _2PI - 1e-9, float(np.nextafter(_2PI, 0)), 4.0, 6.0]
 
 
 def _unit(k):
@@ -60,28 +129,54 @@ def _unit(k):
     return ((k * 2654435761) % 2 ** 32) / 2.0 ** 32
 
 
+def _near(bases, lo, hi):
+    """base +- 10^(-u/10), u = 20..140 (offsets 1e-2 .. 1e-14, log-uniform) on the side(s) of the base that lie in
+    [lo, hi]: the windows of numpy.isclose (1e-8), of a rounding to 8 / 10 / 12 digits and of a small-angle shortcut
+    all lie inside."""
+    sides = [(b, sg) for b in bases for sg in (-1.0, 1.0) if lo < b + sg * 1e-2 < hi]
+    return st.tuples(st.sampled_from(sides), st.integers(20, 140)).map(
+        lambda t: float(min(max(t[0][0] + t[0][1] * 10.0 ** (-t[1] / 10.0), lo), hi)))
+
+
 _u32 = st.integers(0, 2 ** 32 - 1)
 theta_st = st.one_of(
     st.sampled_from(_THETA_SPECIAL),
     st.integers(0, 180).map(lambda k: min(k * _PI / 180.0, _PI)),
     fl(0.0, _PI),
+    _near([0.0, _PI / 2, _PI], 0.0, _PI),
     _u32.map(lambda k: _PI * _unit(k)), _u32.map(lambda k: _PI * _unit(k)), _u32.map(lambda k: _PI * _unit(k)),
 )
 phi_st = st.one_of(
     st.sampled_from(_PHI_SPECIAL),
     st.integers(-179, 180).map(lambda k: max(min(k * _PI / 180.0, _PI), -float(np.nextafter(_PI, 0)))),
     fl(-_PI, _PI, exclude_min=True),
+    _near([-_PI, -_PI / 2, 0.0, _PI / 2, _PI, 1.5 * _PI, _2PI], -_PI, _2PI),
+    _u32.map(lambda k: _PI + _PI * _unit(k)),                       # (pi, 2 pi): documented range, upper half
     _u32.map(lambda k: _PI - 2.0 * _PI * _unit(k)), _u32.map(lambda k: _PI - 2.0 * _PI * _unit(k)),
     _u32.map(lambda k: _PI - 2.0 * _PI * _unit(k)),
 )
+# how the caller spells the two angles: static/boo.py passes numpy float64 scalars (theta[j], phi[j]); the docs and the
+# tests pass python floats; hand-written calls also use whole numbers (SphHarm4(0, 0), theta = 1, phi = -2)
+_REPS = ["float"] * 4 + ["np.float64"] * 4 + ["mixed-f/np", "mixed-np/f", "int", "np.int64"]
 
 
 @st.composite
-def point_st(draw, with_l=None):
-    case = {"theta": draw(theta_st), "phi": draw(phi_st), "np_scalar": draw(st.booleans()),
+def point_st(draw, with_l=None, high=False):
+    rep = draw(st.sampled_from(_REPS))
+    if rep in ("int", "np.int64"):
+        theta, phi = float(draw(st.sampled_from([1, 2, 3, 0]))), float(draw(st.sampled_from([-3, -2, -1, 1, 2, 3, 4, 5, 6, 0])))
+    else:
+        theta, phi = draw(theta_st), draw(phi_st)
+    case = {"theta": theta, "phi": phi, "rep": rep, "call": draw(st.sampled_from(["pos", "pos", "kw"])),
             "mp": draw(st.sampled_from([True] + [False] * 24))}
     if with_l is not None:
         case["l"] = draw(st.sampled_from(list(range(with_l[0], with_l[1] + 1))))
+    if with_l is not None or high:
+        case["ltype"] = draw(st.sampled_from(["int", "int", "np.int64"]))
+    if high:
+        a, b, c = sorted(draw(st.sets(st.integers(LMAX_ABOVE + 1, LMAX_HIGH), min_size=3, max_size=3)))
+        case["degrees"] = {"ascending": [a, b, c], "descending": [c, b, a], "mixed": [b, c, a]}[
+            draw(st.sampled_from(["ascending", "descending", "mixed"]))]
     return case
 
 
@@ -119,51 +214,139 @@ def _identities(name, l, got, fails):
             fails.append(f"{name}: Y_(l,{int(k) - l}) = {got[k]!r} but (-1)^m conj Y_(l,{l - int(k)}) = {mirror[k]!r}")
 
 
+def _spell(x, kind):
+    if kind == "np.float64":
+        return np.float64(x)
+    if kind == "int":
+        return int(x)
+    if kind == "np.int64":
+        return np.int64(int(x))
+    return float(x)
+
+
 def _args(case):
+    """The two angles as the caller spells them (`rep`; committed replays of round 1 carry `np_scalar` instead)."""
     t, p = float(case["theta"]), float(case["phi"])
-    if case.get("np_scalar"):
-        return np.float64(t), np.float64(p)
-    return t, p
+    rep = case.get("rep") or ("np.float64" if case.get("np_scalar") else "float")
+    kt, kp = {"mixed-f/np": ("float", "np.float64"), "mixed-np/f": ("np.float64", "float")}.get(rep, (rep, rep))
+    return _spell(t, kt), _spell(p, kp)
+
+
+def _degree(case, l):
+    return np.int64(l) if case.get("ltype") == "np.int64" else int(l)
+
+
+def _call(case, name, fn, t, p, l=None):
+    """One call of the code under test, positionally (static/boo.py) or with the documented keywords theta=, phi=
+    (, l=) (docs/utils.md VI, tests).  A TypeError raised by the call binding itself (a renamed parameter) has no
+    frame inside PyMatterSim, so it is turned into a Violation here instead of a harness error."""
+    require(callable(fn), f"{name} is missing from utils.spherical_harmonics")
+    try:
+        if case.get("call") == "kw":
+            return fn(theta=t, phi=p) if l is None else fn(l=l, theta=t, phi=p)
+        return fn(t, p) if l is None else fn(l, t, p)
+    except TypeError as e:
+        if exception_from_cut(e):
+            raise
+        raise Violation(f"{name}: the documented call ({case.get('call', 'pos')}) is rejected: {e}")
+
+
+class _Alive:
+    """Results handed out earlier must stay what they were (EXTENSION_3 class 3; seeded C08-F returned a per-degree work
+    array, so every later call of that degree rewrote the arrays handed out before).  Every returned object is kept
+    together with a copy taken at return time (the copy is what was compared with the oracle); `recheck` compares
+    all of them bit for bit at the end of the case.  Arrays the "caller" overwrote on purpose must still hold what
+    the caller wrote."""
+
+    def __init__(self):
+        self.items = []
+
+    def keep(self, name, out):
+        if isinstance(out, np.ndarray):
+            self.items.append([name, out, out.copy()])
+
+    def caller_wrote(self, out):
+        for it in self.items:
+            if it[1] is out:
+                it[2] = out.copy()
+
+    def recheck(self, fails):
+        for name, out, snap in self.items:
+            same = out.shape == snap.shape and bool(np.all((out == snap) | ((out != out) & (snap != snap))))
+            if not same:
+                k = int(np.flatnonzero(~(out == snap))[0]) if out.shape == snap.shape else 0
+                fails.append(f"{name}: the array returned by this call was changed by a LATER call (entry {k}: held "
+                             f"{snap.ravel()[k]!r} at return / after the caller's own write, holds {out.ravel()[k]!r} now)")
+
+
+def _offset(x, bases):
+    return min(abs(x - b) for b in bases)
 
 
 def _classes(case):
     t, p = float(case["theta"]), float(case["phi"])
+    rep = case.get("rep") or ("np.float64" if case.get("np_scalar") else "float")
     tags = ["pole" if np.sin(t) < 1e-6 else ("equator" if abs(np.cos(t)) < 1e-6 else "generic-theta"),
             "phi<0" if p < 0 else ("phi=0" if p == 0 else "phi>0"),
-            "np.float64" if case.get("np_scalar") else "float"]
+            "rep-" + rep, "call-" + case.get("call", "pos"),
+            "theta-north" if t < _PI / 2 else "theta-south"]
     if abs(abs(p) - _PI) < 1e-12:
         tags.append("phi=+-pi")
+    if p == -_PI:
+        tags.append("phi=-pi-exact")
+    if p > _PI:
+        tags.append("phi-in-(pi,2pi]")
     if t in (0.0, _PI):
         tags.append("pole-exact")
+    for lab, d in (("pole", _offset(t, (0.0, _PI))), ("equator", _offset(t, (_PI / 2,))),
+                   ("phi-axis", _offset(p, (-_PI, -_PI / 2, 0.0, _PI / 2, _PI, 1.5 * _PI, _2PI)))):
+        if 0 < d <= 1e-8:
+            tags.append(f"{lab}-offset-(0,1e-8]")        # inside numpy.isclose's window, not exact
+        elif 1e-8 < d <= 1e-4:
+            tags.append(f"{lab}-offset-(1e-8,1e-4]")
     return tags
 
 
-def _finish(case, fails, ncomp, nbig, extra_tags=()):
+def _finish(case, fails, ncomp, nbig, extra_tags=(), nontrivial=None):
     if fails:
         head = f"theta = {float(case['theta'])!r}, phi = {float(case['phi'])!r}: {len(fails)} disagreement(s)\n  "
         raise Violation(head + "\n  ".join(fails[:12]) + ("\n  ..." if len(fails) > 12 else ""))
     tags = _classes(case) + list(extra_tags)
+    if "ltype" in case:
+        tags.append("ltype-" + case["ltype"])
     if case.get("mp"):
         tags.append("mpmath-checked")
-    return {"nontrivial": bool(2 * nbig >= ncomp), "tags": tags,
+    nt = bool(2 * nbig >= ncomp) if nontrivial is None else bool(nontrivial)
+    return {"nontrivial": nt, "tags": tags,
             "extra": {"components_compared": int(ncomp), "components_above_1e-3": int(nbig)}}
 
 
-def _reference(case, lmax, degrees):
-    """Oracle A for l = 0..lmax at the point, cross-checked against scipy (always) and mpmath (flagged cases)."""
-    t, p = float(case["theta"]), float(case["phi"])
+def _oracle_atol(l):
+    """How closely the oracles must agree among themselves.  l <= 20: 2e-13 (observed 4e-15).  l = 21..60: the argument
+    m*phi of e^{i m phi} carries a rounding error <= m |phi| eps/2 <= 60 * 2 pi * 1.1e-16 = 4e-14 (relative to
+    |Y| <~ 3) in each implementation and the recurrence adds O(l) ulps: 1e-12 (observed 4e-14)."""
+    return 2e-13 if l <= LMAX_ABOVE else 1e-12
+
+
+def _reference_at(t, p, lmax, degrees, mp_degrees=()):
     ref = R.ylm_table(lmax, t, p)
     for l in degrees:
         m = np.arange(-l, l + 1)
         B = np.asarray(sph_harm_y(l, m, t, p), dtype=np.complex128)
         # the oracles must agree among themselves far below the tolerance given to the code under test
-        if len(_bad(ref[l], B, rtol=1e-12, atol=2e-13)):
+        if len(_bad(ref[l], B, rtol=1e-12, atol=_oracle_atol(l))):
             raise AssertionError(f"oracle A and scipy disagree at l={l}, theta={t!r}, phi={p!r}: {ref[l]} vs {B}")
-        if case.get("mp"):
+        if l in mp_degrees:
             C = R.ylm_mp(l, t, p)
-            if len(_bad(ref[l], C, rtol=1e-12, atol=2e-13)):
+            if len(_bad(ref[l], C, rtol=1e-12, atol=_oracle_atol(l))):
                 raise AssertionError(f"oracle A and mpmath disagree at l={l}, theta={t!r}, phi={p!r}")
     return ref
+
+
+def _reference(case, lmax, degrees):
+    """Oracle A for l = 0..lmax at the point, cross-checked against scipy (always) and mpmath (flagged cases)."""
+    degrees = list(degrees)
+    return _reference_at(float(case["theta"]), float(case["phi"]), lmax, degrees, degrees if case.get("mp") else ())
 
 
 # ----------------------------------------------------------------------------- facets
@@ -175,10 +358,11 @@ def check_tables(case):
     ref = _reference(case, 10, range(1, 11))
     t, p = _args(case)
     ncomp = nbig = 0
+    alive = _Alive()
     for l in range(1, 11):
-        fn = TABLES[l]
-        require(callable(fn), f"SphHarm{l} is missing from utils.spherical_harmonics")
-        got = _vec(f"SphHarm{l}", fn(t, p), l)
+        out = _call(case, f"SphHarm{l}", TABLES[l], t, p)
+        alive.keep(f"SphHarm{l}", out)
+        got = _vec(f"SphHarm{l}", out, l)
         n0 = len(fails)
         _compare(f"SphHarm{l}", l, got, ref[l], fails, "reference recurrence")
         if len(fails) == n0:  # (A and B agree to 2e-13, so B can only add something if A found nothing)
@@ -188,22 +372,45 @@ def check_tables(case):
         _identities(f"SphHarm{l}", l, got, fails)
         ncomp += 2 * l + 1
         nbig += int(np.sum(np.abs(ref[l]) > 1e-3))
+    alive.recheck(fails)
     return _finish(case, fails, ncomp, nbig)
+
+
+def _check_delegated(case, degrees, lmax, mp_degrees):
+    fails = []
+    ref = _reference_at(float(case["theta"]), float(case["phi"]), lmax, degrees, mp_degrees)
+    t, p = _args(case)
+    ncomp = nbig = 0
+    alive = _Alive()
+    for l in degrees:
+        name = f"SphHarm_above(l={l})"
+        out = _call(case, name, SH.SphHarm_above, t, p, l=_degree(case, l))
+        alive.keep(name, out)
+        got = _vec(name, out, l)
+        _compare(name, l, got, ref[l], fails, "reference recurrence")
+        _identities(name, l, got, fails)
+        ncomp += 2 * l + 1
+        nbig += int(np.sum(np.abs(ref[l]) > 1e-3))
+    alive.recheck(fails)
+    return fails, ncomp, nbig
 
 
 def check_above(case):
     """SphHarm_above for l = 11..20 at one point against A (and C on the subsample)."""
-    fails = []
-    ref = _reference(case, LMAX_ABOVE, range(11, LMAX_ABOVE + 1))
-    t, p = _args(case)
-    ncomp = nbig = 0
-    for l in range(11, LMAX_ABOVE + 1):
-        got = _vec(f"SphHarm_above(l={l})", SH.SphHarm_above(l, t, p), l)
-        _compare(f"SphHarm_above(l={l})", l, got, ref[l], fails, "reference recurrence")
-        _identities(f"SphHarm_above(l={l})", l, got, fails)
-        ncomp += 2 * l + 1
-        nbig += int(np.sum(np.abs(ref[l]) > 1e-3))
+    degrees = list(range(11, LMAX_ABOVE + 1))
+    fails, ncomp, nbig = _check_delegated(case, degrees, LMAX_ABOVE, degrees if case.get("mp") else ())
     return _finish(case, fails, ncomp, nbig)
+
+
+def check_above_high(case):
+    """SphHarm_above for three degrees in 21..60, in any order (EXTENSION_2 class 4: anything sized
+    for 'l up to 20' - an order buffer, a factorial table - is invisible below)."""
+    degrees = [int(l) for l in case["degrees"]]
+    fails, ncomp, nbig = _check_delegated(case, degrees, max(degrees), degrees[:1] if case.get("mp") else ())
+    order = "ascending" if degrees == sorted(degrees) else "descending" if degrees == sorted(degrees, reverse=True) else "mixed"
+    tags = [f"l-{10 * (l // 10)}s" for l in degrees] + ["order-" + order]
+    tags += sorted({"l-odd" if l % 2 else "l-even" for l in degrees})
+    return _finish(case, fails, ncomp, nbig, extra_tags=sorted(set(tags)))
 
 
 def check_dispatch(case):
@@ -212,14 +419,125 @@ def check_dispatch(case):
     fails = []
     ref = _reference(case, l, [l])
     t, p = _args(case)
-    got = _vec(f"sph_harm_l(l={l})", SH.sph_harm_l(l, t, p), l)
+    alive = _Alive()
+    out = _call(case, "sph_harm_l", SH.sph_harm_l, t, p, l=_degree(case, l))
+    alive.keep(f"sph_harm_l(l={l})", out)
+    got = _vec(f"sph_harm_l(l={l})", out, l)
     _compare(f"sph_harm_l(l={l})", l, got, ref[l], fails, "reference recurrence")
+    # the table / delegate of the same degree, at the opposite azimuth first (a different result of the same degree
+    # while `out` is still alive; phi -+ pi stays inside (-pi, pi]), then at the same point
+    q = float(p) - _PI if float(p) > 0 else float(p) + _PI
+    other = TABLES[l](t, q) if l <= 10 else SH.SphHarm_above(l, t, q)
+    alive.keep(f"direct call of degree {l} at phi = {q!r}", other)
     direct = TABLES[l](t, p) if l <= 10 else SH.SphHarm_above(l, t, p)
+    alive.keep(f"direct call of degree {l}", direct)
     direct = _vec(f"SphHarm{l}" if l <= 10 else f"SphHarm_above(l={l})", direct, l)
     for k in _bad(got, direct, rtol=1e-13, atol=1e-15):
         fails.append(f"sph_harm_l(l={l}) differs from the table of degree {l} at m = {int(k) - l}: {got[k]!r} vs {direct[k]!r}")
+    alive.recheck(fails)
     nbig = int(np.sum(np.abs(ref[l]) > 1e-3))
-    return _finish(case, fails, 2 * l + 1, nbig, extra_tags=[f"l={l:02d}"])
+    return _finish(case, fails, 2 * l + 1, nbig, extra_tags=[f"l={l:02d}", "l-odd" if l % 2 else "l-even"])
+
+
+# ----------------------------------------------------------------------------- call histories in one process
+#
+# Every other facet evaluates one point per case with arguments it never looks at again.  Real use (static/boo.py) is a
+# long loop over bonds in one process: the same degree again and again, nearly identical angles (crystals), degrees in
+# any order.  A memo keyed on rounded angles, a cached result array handed out twice, a grow-only order buffer
+# (seeded C08-B) are all exact for a single call.  A history is 3..8 calls; every result is compared with the oracle for
+# the arguments of THAT call, and some results are overwritten in place by the "caller" before the next call.
+
+_NEAR_EXP = st.integers(70, 120)   # offsets 1e-7 .. 1e-12
+
+
+@st.composite
+def history_st(draw, nsteps=(3, 8), lmax=24, pool_size=3):
+    base = draw(point_st())
+    if base["rep"] in ("int", "np.int64"):
+        base["rep"] = "float"
+    pool = draw(st.lists(st.integers(1, lmax), min_size=1, max_size=pool_size, unique=True))
+    points = [(base["theta"], base["phi"])]
+    steps = []
+    for _ in range(draw(st.integers(*nsteps))):
+        how = draw(st.sampled_from(["same", "same", "near-theta", "near-phi", "other"]))
+        t0, p0 = points[draw(st.integers(0, len(points) - 1))]
+        if how == "near-theta":
+            d = draw(st.sampled_from([-1.0, 1.0])) * 10.0 ** (-draw(_NEAR_EXP) / 10.0)
+            t, p = float(min(max(t0 + d, 0.0), _PI)), p0
+        elif how == "near-phi":
+            d = draw(st.sampled_from([-1.0, 1.0])) * 10.0 ** (-draw(_NEAR_EXP) / 10.0)
+            t, p = t0, float(min(max(p0 + d, -_PI), _2PI))
+        elif how == "other":
+            t, p = draw(theta_st), draw(phi_st)
+        else:
+            t, p = t0, p0
+        points.append((t, p))
+        steps.append({"theta": t, "phi": p, "how": how, "l": draw(st.sampled_from(pool)),
+                      "fn": draw(st.sampled_from(["dispatch", "dispatch", "direct"])),
+                      "rep": draw(st.sampled_from(["float", "np.float64"])),
+                      "after": draw(st.sampled_from(["keep", "keep", "scribble"]))})
+    base["steps"] = steps
+    return base
+
+
+def check_history(case):
+    fails, seen, tags = [], [], set()
+    ncomp = nbig = 0
+    repeated = False
+    alive = _Alive()
+    for k, stp in enumerate(case["steps"]):
+        l, t, p = int(stp["l"]), float(stp["theta"]), float(stp["phi"])
+        pt = {"theta": t, "phi": p, "rep": stp["rep"], "call": case.get("call", "pos")}
+        ref = _reference_at(t, p, l, [l])
+        a, b = _args(pt)
+        if stp["fn"] == "dispatch":
+            name, out = f"step {k}: sph_harm_l(l={l})", _call(pt, "sph_harm_l", SH.sph_harm_l, a, b, l=l)
+        elif l <= 10:
+            name, out = f"step {k}: SphHarm{l}", _call(pt, f"SphHarm{l}", TABLES[l], a, b)
+        else:
+            name, out = f"step {k}: SphHarm_above(l={l})", _call(pt, "SphHarm_above", SH.SphHarm_above, a, b, l=l)
+        name += f" at theta = {t!r}, phi = {p!r} after {len(seen)} earlier call(s)"
+        alive.keep(name, out)
+        got = _vec(name, out, l)
+        _compare(name, l, got, ref[l], fails, "reference recurrence")
+        _identities(name, l, got, fails)
+        for (l0, t0, p0, scribbled) in seen:
+            if l0 != l:
+                continue
+            dist = max(abs(t0 - t), abs(p0 - p))
+            if dist == 0:
+                tags.add("repeat-exact")
+                repeated = True
+                if scribbled:
+                    tags.add("repeat-after-caller-overwrote-result")
+            elif dist <= 1e-8:
+                tags.add("repeat-near-(0,1e-8]")
+                repeated = True
+            elif dist <= 1e-6:
+                tags.add("repeat-near-(1e-8,1e-6]")
+            if dist > 0:
+                tags.add("same-degree-other-angles-while-earlier-result-alive")
+        if any(l0 > l > 10 for (l0, _, _, _) in seen):
+            tags.add("delegated-degree-after-a-larger-one")
+        scribbled = False
+        if stp["after"] == "scribble" and isinstance(out, np.ndarray) and out.flags.writeable and out.size:
+            out[...] = 7.0          # what `y = sph_harm_l(..); y *= w; y += ..` does to the returned array
+            alive.caller_wrote(out)
+            scribbled = True
+        seen.append((l, t, p, scribbled))
+        ncomp += 2 * l + 1
+        nbig += int(np.sum(np.abs(ref[l]) > 1e-3))
+    alive.recheck(fails)
+    ns = len(case["steps"])
+    tags.add(f"steps-{ns}" if ns <= 8 else f"steps-{10 * (ns // 10)}s")
+    tags.add("degrees-%d" % len({s["l"] for s in case["steps"]}))
+    return _finish(case, fails, ncomp, nbig, extra_tags=sorted(tags), nontrivial=repeated and 2 * nbig >= ncomp)
+
+
+def describe_history(case):
+    d = describe(case)
+    d["steps"] = [(s["fn"], int(s["l"]), float(s["theta"]), float(s["phi"]), s["rep"], s["after"]) for s in case["steps"]]
+    return d
 
 
 # structured complement: 41 x 41 grid.  Every table entry is a polynomial of degree <= 10 in (sin theta, cos theta)
@@ -304,9 +622,14 @@ def grid_enum(tier):
 
 
 def describe(case):
-    d = {"theta": float(case["theta"]), "phi": float(case["phi"]), "scalar": "np.float64" if case["np_scalar"] else "float"}
+    d = {"theta": float(case["theta"]), "phi": float(case["phi"]),
+         "scalar": case.get("rep") or ("np.float64" if case.get("np_scalar") else "float"), "call": case.get("call", "pos")}
     if "l" in case:
         d["l"] = int(case["l"])
+    if "ltype" in case:
+        d["ltype"] = case["ltype"]
+    if "degrees" in case:
+        d["degrees"] = [int(x) for x in case["degrees"]]
     return d
 
 
@@ -329,6 +652,18 @@ FACETS = [
           rule="delegated branch l = 11..20, all components per point vs recurrence reference; Unsoeld; symmetry"),
     Facet("dispatch", point_st(with_l=(1, 20)), check_dispatch, quick=3000, thorough=300000, describe=describe,
           shards_quick=2, rule="sph_harm_l(l) for l = 1..20 is Y_l and equals the table of degree l"),
+    Facet("above_high", point_st(high=True), check_above_high, quick=150, thorough=12000, describe=describe,
+          rule="delegated branch, three degrees from 21..60 per point (any order), python int or "
+               "numpy.int64 degree, vs recurrence reference (scipy always, mpmath on the subsample); Unsoeld; symmetry"),
+    Facet("history", history_st(), check_history, quick=700, thorough=60000, describe=describe_history, shards_quick=2,
+          rule="3..8 calls in one case (dispatcher / table / delegate, 1-3 degrees from 1..24 in any order, the same "
+               "angles again, angles 1e-12..1e-7 away, other angles; some returned arrays overwritten in place by "
+               "the caller before the next call); every result vs the oracle for the arguments of that call; "
+               "non-trivial = some call repeats an earlier (degree, angles) exactly or within 1e-8, and >= half of "
+               "the components exceed 1e-3"),
+    Facet("history_long", history_st(nsteps=(12, 40), lmax=40, pool_size=6), check_history, quick=0, thorough=6000,
+          describe=describe_history,
+          rule="thorough tier only: histories of 12..40 calls over up to 6 degrees from 1..40; oracle as in `history`"),
     _grid,
 ]
 
@@ -336,14 +671,20 @@ MANIFEST = {
     "text": ("Generated search over the angle continuum plus a structured 41x41 grid: every closed-form entry of "
              "SphHarm1..SphHarm10 (120 components), the scipy-delegated branch SphHarm_above for l = 11..20 and the "
              "dispatcher sph_harm_l for l = 1..20 equal the orthonormal Condon-Shortley Y_lm(polar theta, azimuth phi) "
-             "in the order m = -l..l to 5e-12 + 1e-10 relative, including poles, equator, phi = 0, +-pi/2, pi, negative "
-             "phi and both python and numpy scalars; the Unsoeld sum and Y_(l,-m) = (-1)^m conj Y_lm are asserted on "
-             "the library output. Facets: tables, above, dispatch, grid41 (finite grid enumeration). An import "
-             "failure of utils.spherical_harmonics is reported as a violation."),
+             "in the order m = -l..l to 5e-12 + 1e-10 relative, including poles, equator, phi = 0, +-pi/2, +-pi, negative "
+             "phi, the documented upper half (pi, 2 pi], offsets 1e-14..1e-2 from all of these, python / numpy floats "
+             "and whole numbers, positional and keyword calls, numpy integer degrees; the delegated branch also for three "
+             "degrees from 21..60 per point; call histories (3..8 calls in one process: repeated and neighbouring angles, "
+             "degrees in any order, returned arrays overwritten by the caller) with every result compared for its own "
+             "arguments and all results of a case re-compared bit for bit with copies taken at return; the Unsoeld sum and Y_(l,-m) = (-1)^m conj Y_lm are asserted on the library output. Facets: "
+             "tables, above, dispatch, above_high, history, history_long (thorough tier only: 12..40 calls, l <= 40), "
+             "grid41 (finite grid enumeration). An import failure of "
+             "utils.spherical_harmonics is reported as a violation."),
     "note": ("Exploration, not proof: equality 'identically in both angles' is sampled (thousands of points per run) and "
              "bounded on a 41x41 grid that determines trigonometric polynomials of degree <= 20 in each angle. "
              "Trusted base: the independent recurrence reference pbt/ref/ylm.py, cross-checked in every case against "
-             "scipy.special.sph_harm_y and on ~4 % of cases against mpmath.spherharm at 30 digits. l > 20 is not explored."),
+             "scipy.special.sph_harm_y and on ~4 % of cases against mpmath.spherharm at 30 digits. l > 60, float32 scalars "
+             "and array arguments are not explored."),
     "technique": ("property-based testing (Hypothesis): reference-model differential (independent recurrence "
                   "implementation, scipy and mpmath as second/third opinions) plus algebraic identities (Unsoeld sum, "
                   "conjugation symmetry) and a finite grid enumeration as structured complement"),
